@@ -109,12 +109,6 @@ def runOp (d : D) (op : Op) (reqDep : Bool) (impl : String) : D × DrvOut :=
       let good := if dep then stepOKweak U d.cur op cur' ires else stepOK U d.cur op cur' ires
       let spec :=
         if good then "ok"
-        else if shared && tainted && !dep && impl == model then
-          (if leakNow then "KNOWN iface-shared a rejected PATCH of path " ++ bytesStr ((Hex.decode (opName.head?.getD "-")).getD []) ++
-             " changed the stored optional values of the running configuration (the clone shares OptionalPath.Values)"
-           else "KNOWN iface-shared values leaked by an earlier rejected PATCH surfaced in this edit (exactly as the model of the current code predicts)")
-        else if shared && tainted && dep then
-          "KNOWN iface-shared (deprecated-parameter history) a rejected PATCH changed the running configuration"
         else "FAIL " ++ (match ires with
           | .ok => "accepted edit did not change exactly the requested fields / reads do not return the stored values"
           | .exists => "add: 'exists' on a missing name or state changed"
@@ -123,6 +117,116 @@ def runOp (d : D) (op : Op) (reqDep : Bool) (impl : String) : D × DrvOut :=
           | .invalid => "rejected edit changed the running configuration")
       -- after a divergence caused by the known leak the two states are re-synchronised on the implementation
       ({ d with dep, tainted, cur := cur', code := if dep then cur' else code' }, { model, spec })
+
+/-- one edit op as words → (op, uses deprecated parameters) -/
+def parseEdit : List String → Except String (Op × Bool)
+  | ["gpatch", _, orc] => withOrc orc fun r => .gpatch r
+  | ["dpatch", _, orc] => withOrc orc fun r => .dpatch r
+  | ["delete", n] => .ok (.delete n, false)
+  | [kind, n, _, orc] =>
+    if kind == "add" then withOrc orc fun r => .add n r
+    else if kind == "patch" then withOrc orc fun r => .patch n r
+    else if kind == "replace" then withOrc orc fun r => .replace n r
+    else .error "bad-op"
+  | _ => .error "bad-op"
+where
+  withOrc (orc : String) (f : Option Rec → Op) : Except String (Op × Bool) :=
+    if orc == "KEYS-MISMATCH" then .error "keys"
+    else match parseOracle orc with
+      | some (req, dep) => .ok (f req, dep)
+      | none => .error "bad-op"
+
+def splitBar (ws : List String) : List (List String) :=
+  let r := ws.foldl (fun (acc : List (List String) × List String) w =>
+    if w == "|" then (acc.1 ++ [acc.2], []) else (acc.1, acc.2 ++ [w])) ([], [])
+  r.1 ++ [r.2]
+
+def insertAll {α : Type} (x : α) : List α → List (List α)
+  | [] => [[x]]
+  | y :: ys => (x :: y :: ys) :: (insertAll x ys).map (y :: ·)
+
+def perms {α : Type} : List α → List (List α)
+  | [] => [[]]
+  | x :: xs => (perms xs).flatMap (insertAll x)
+
+/-- run the edits in the given order from `s`, with the implementation's verdicts; `none` if some result
+differs from what the implementation answered for that edit -/
+def runSeq (s : St) : List (Op × Res) → Option St
+  | [] => some s
+  | (op, res) :: rest =>
+    let (s', mres) := step shared s op (res == .ok)
+    if mres == res then runSeq s' rest else none
+
+def opNames : Op → List Name
+  | .add n _ | .patch n _ | .replace n _ | .delete n => [n]
+  | _ => []
+
+/-- concurrent edits: linearisability — the results and the final configuration must be those of SOME
+sequential order of the edits (each step of which satisfies the property, `history_ok`) -/
+def runPar (d : D) (ops : List (Op × Bool)) (impl : String) : D × DrvOut :=
+  match words impl with
+  | "par" :: resS :: toks =>
+    match (resS.splitOn ",").mapM parseRes with
+    | none => (d, { model := "-", spec := "FAIL unparsable implementation answer: " ++ (impl.take 80).toString })
+    | some ress =>
+      if ress.length != ops.length then (d, { model := "-", spec := "FAIL wrong number of results" }) else
+      let dep := d.dep || ops.any (·.2)
+      let items := (ops.map (·.1)).zip ress
+      if toks.any (·.startsWith "X:") then
+        ({ d with dep }, { model := "-", spec := "FAIL an edit was accepted although the resulting configuration does not validate" })
+      else
+      let diffToks := toks
+      match applyToks d.cur diffToks with
+      | none => ({ d with dep }, { model := "-", spec := "FAIL unparsable snapshot diff in the implementation answer" })
+      | some cur' =>
+        let orders := perms items
+        let finalsCode := orders.filterMap (runSeq d.code)
+        let pick := match finalsCode.find? (fun f => diffSt d.gk d.pk d.code f == diffToks) with
+          | some f => some f
+          | none => finalsCode.head?
+        let model := if dep then "-" else match pick with
+          | some f => fmtAns ("par " ++ resS) (diffSt d.gk d.pk d.code f)
+          | none => "no-sequential-order"
+        let U : Univ := { gk := d.gk, pk := d.pk,
+                          ns := sortedUnion (sortedUnion (names d.cur.o) (names cur'.o))
+                                  (sortedUnion (names d.cur.p) (names cur'.p) ++ (ops.flatMap fun o => opNames o.1)) }
+        let finalsCur := orders.filterMap (runSeq d.cur)
+        let spec :=
+          if dep then "ok"
+          else if finalsCur.any (fun f => sameSt U f cur') then "ok"
+          else if finalsCur.isEmpty then
+            "FAIL concurrent edits: the answers (" ++ resS ++ ") are those of no sequential order of the edits"
+          else "FAIL concurrent edits: the resulting configuration is that of no sequential order of the accepted edits (lost update)"
+        ({ d with dep, cur := cur', code := if dep then cur' else (pick.getD d.code) }, { model, spec })
+  | _ => (d, { model := "-", spec := "FAIL unparsable implementation answer: " ++ (impl.take 80).toString })
+
+/-- fields served as the redaction placeholder (C07) are left out of what reads are compared on -/
+def readSkip (k : Key) : Bool := k == "authInternalUsers" || k == "publishPass" || k == "readPass"
+
+def renderRead (d : D) (s : St) (what : String) (name : Name) : String :=
+  let gk := d.gk.filter (!readSkip ·)
+  let pk := d.pk.filter (!readSkip ·)
+  let one (n : Name) (r : Rec) : List String := ("P:" ++ n ++ ":+") :: diffRec ("P:" ++ n ++ ":") pk [] r
+  if what == "g" then fmtAns "200" (diffRec "G:" gk [] s.g)
+  else if what == "d" then fmtAns "200" (diffRec "D:" pk [] s.d)
+  else if what == "l" then
+    fmtAns "200" ((sortedUnion (names s.p) []).flatMap fun n => one n ((pget s.p n).getD []))
+  else match pget s.p name with
+    | some r => fmtAns "200" (one name r)
+    | none => "404"
+
+/-- reads: return what is stored ("a successful edit is what subsequent reads return"), change nothing -/
+def runRead (d : D) (what : String) (name : Name) (impl : String) : D × DrvOut :=
+  let iw := words impl
+  let model := if d.dep then "-" else renderRead d d.code what name
+  let served := " ".intercalate (iw.filter (fun w => !w.startsWith "X:"))
+  let spec :=
+    if iw.any (·.startsWith "X:") then "FAIL a read (GET) changed the running configuration"
+    else if served != renderRead d d.cur what name then
+      "FAIL a read does not return the stored configuration (config/" ++
+        (if what == "g" then "global/get" else if what == "d" then "pathdefaults/get" else if what == "l" then "paths/list" else "paths/get") ++ ")"
+    else "ok"
+  (d, { model, spec })
 
 def step' (d : D) (op impl : String) : D × DrvOut :=
   match words op with
@@ -138,26 +242,19 @@ def step' (d : D) (op impl : String) : D × DrvOut :=
         | ["D", kv] => (kv.splitOn "=").head?
         | _ => none)
       ({ code := s, cur := s, gk, pk, dep := dep0 == "1" }, { model := "ok" })
-  | ["gpatch", _, orc] =>
-    if orc == "KEYS-MISMATCH" then (d, { model := "-", spec := "FAIL request decoder dropped or invented a field" }) else
-    match parseOracle orc with
-    | some (req, dep) => runOp d (.gpatch req) dep impl
-    | none => (d, { model := "bad-op" })
-  | ["dpatch", _, orc] =>
-    if orc == "KEYS-MISMATCH" then (d, { model := "-", spec := "FAIL request decoder dropped or invented a field" }) else
-    match parseOracle orc with
-    | some (req, dep) => runOp d (.dpatch req) dep impl
-    | none => (d, { model := "bad-op" })
-  | [kind, n, _, orc] =>
-    if orc == "KEYS-MISMATCH" then (d, { model := "-", spec := "FAIL request decoder dropped or invented a field" }) else
-    match parseOracle orc with
-    | some (req, dep) =>
-      if kind == "add" then runOp d (.add n req) dep impl
-      else if kind == "patch" then runOp d (.patch n req) dep impl
-      else if kind == "replace" then runOp d (.replace n req) dep impl
+  | ["read", what] => runRead d what "" impl
+  | ["read", what, n] => runRead d what n impl
+  | "par" :: rest =>
+    match (splitBar rest).mapM parseEdit with
+    | .ok ops => runPar d ops impl
+    | .error e =>
+      if e == "keys" then (d, { model := "-", spec := "FAIL request decoder dropped or invented a field" })
       else (d, { model := "bad-op" })
-    | none => (d, { model := "bad-op" })
-  | ["delete", n] => runOp d (.delete n) false impl
-  | _ => (d, { model := "bad-op" })
+  | ws =>
+    match parseEdit ws with
+    | .ok (o, dep) => runOp d o dep impl
+    | .error e =>
+      if e == "keys" then (d, { model := "-", spec := "FAIL request decoder dropped or invented a field" })
+      else (d, { model := "bad-op" })
 
 def main (args : List String) : IO UInt32 := runDriver args ({} : D) step'
